@@ -172,9 +172,10 @@ class YamlDocument(HierDictDocument):
 
             ctx.in_document = yaml.load(s, **self.in_kwargs)
 
-        except (yaml.YAMLError, UnicodeDecodeError) as e:
+        except (yaml.YAMLError, UnicodeDecodeError, LookupError) as e:
             # ParserError is only one of the errors yaml.load() can raise:
             # ScannerError, ReaderError, ComposerError, ConstructorError...
+            # LookupError: the content type names an unknown charset
             raise Fault('Client.YamlDecodeError', repr(e))
 
     def create_out_string(self, ctx, out_string_encoding='utf8'):
